@@ -264,6 +264,10 @@ func TestVerifC07(t *testing.T) {
 			}
 		}
 	}
+	// ---- several diagnosed placeholders in one string: every reported diagnostic must sit at the
+	// token of the placeholder it names (the names differ per slot), whatever precedes it — in
+	// particular placeholders that themselves failed (scripts continue after a semantic error)
+	c07MultiFamily(r, &idx)
 	// ---- every scalar position of the seeds x quoting x spaces after ${{ : an undefined variable
 	// spliced there must be reported exactly at its first character (this reaches every field
 	// kind: template strings, single-expression bool/int/float fields, section-level expressions)
@@ -310,7 +314,14 @@ func TestVerifC07(t *testing.T) {
 					wantCol := p.Col + qoff + 3 + spaces
 					for _, h := range hits {
 						if h.Line != p.Line || h.Col != wantCol {
-							r.Violation("position:field:"+p.NPath+":"+c07QuoteNames[quote], fmt.Sprintf("%s %s (%s, %d spaces after ${{): variable is at %d:%d, diagnostic reported at %d:%d", c.Seed, p.Path, c07QuoteNames[quote], spaces, p.Line, wantCol, h.Line, h.Col),
+							vkey := "position:field:" + p.NPath + ":" + c07QuoteNames[quote]
+							if c07RawMatrixValue(p.NPath) {
+								// all literal values below a matrix row / include / exclude entry go through one
+								// call site (checkRawYAMLString); the key records the offset so that any
+								// other displacement there is a different violation
+								vkey = fmt.Sprintf("position:field:raw-matrix-value:%s:line%+d:col%+d", c07QuoteNames[quote], h.Line-p.Line, h.Col-wantCol)
+							}
+							r.Violation(vkey, fmt.Sprintf("%s %s (%s, %d spaces after ${{): variable is at %d:%d, diagnostic reported at %d:%d", c.Seed, p.Path, c07QuoteNames[quote], spaces, p.Line, wantCol, h.Line, h.Col),
 								map[string]any{"desc": fmt.Sprintf("field %s %s", c.Seed, p.Path), "src": src, "line": p.Line, "col": wantCol, "msg": undef.String(), "class": class})
 						}
 					}
@@ -355,4 +366,116 @@ func TestVerifC07(t *testing.T) {
 			}
 		}
 	}
+}
+
+// c07Slot is one placeholder body of the multi-placeholder family; %d is the slot number.
+type c07Slot struct {
+	name string
+	body func(i int) string
+	msg  func(i int) string // regexp of the diagnostic naming this slot's token
+}
+
+var c07UntrustedBySlot = []string{"github.event.issue.title", "github.event.issue.body", "github.head_ref"}
+
+var c07Slots = []c07Slot{
+	{"valid", func(i int) string { return fmt.Sprint(i + 1) }, nil},
+	{"undefined-variable", func(i int) string { return fmt.Sprintf("nosuch%d.x", i) }, func(i int) string { return fmt.Sprintf(`^undefined variable "nosuch%d"`, i) }},
+	{"untrusted", func(i int) string { return c07UntrustedBySlot[i] }, func(i int) string {
+		return `^"` + regexp.QuoteMeta(c07UntrustedBySlot[i]) + `" is potentially untrusted`
+	}},
+	{"undefined-property", func(i int) string { return fmt.Sprintf("github.nosuchprop%d", i) }, func(i int) string { return fmt.Sprintf(`^property "nosuchprop%d" is not defined`, i) }},
+}
+
+func c07MultiFamily(r *vReport, idx *int64) {
+	keys := []struct{ name, head, tail string }{
+		{"run", "- run: ", ""},
+		{"name", "- name: ", "\n        run: echo"},
+		{"env", "- env:\n          V: ", "\n        run: echo"},
+		{"with", "- uses: actions/checkout@v4\n        with:\n          ref: ", ""},
+	}
+	for n := 2; n <= 3; n++ {
+		total := 1
+		for i := 0; i < n; i++ {
+			total *= len(c07Slots)
+		}
+		for code := 0; code < total; code++ {
+			sel := make([]int, n)
+			for i, c := 0, code; i < n; i++ {
+				sel[i] = c % len(c07Slots)
+				c /= len(c07Slots)
+			}
+			for _, spaces := range []int{0, 1, 3} {
+				for _, sep := range []int{0, 1, 4} {
+					for quote := 0; quote <= 2; quote++ {
+						for ki, k := range keys {
+							*idx++
+							if !r.Mine(*idx) {
+								continue
+							}
+							content := "echo "
+							type exp struct {
+								off  int
+								re   *regexp.Regexp
+								prev string // kind of the slot before this one
+							}
+							var exps []exp
+							for i, si := range sel {
+								content += "${{" + strings.Repeat(" ", spaces)
+								if c07Slots[si].msg != nil {
+									prev := "first"
+									if i > 0 {
+										prev = c07Slots[sel[i-1]].name
+									}
+									exps = append(exps, exp{len(content), regexp.MustCompile(c07Slots[si].msg(i)), prev})
+								}
+								content += c07Slots[si].body(i) + " }}" + strings.Repeat("-", sep)
+							}
+							scalar, qoff := c07Quote(quote, content)
+							head := "on: pull_request\njobs:\n  a:\n    runs-on: ubuntu-latest\n    steps:\n      "
+							lines := strings.Split(head+k.head, "\n")
+							line := len(lines)
+							col := len(lines[len(lines)-1]) + 1
+							src := head + k.head + scalar + k.tail + "\n"
+							desc := fmt.Sprintf("multi %s sel=%v spaces=%d sep=%d quote=%s", k.name, sel, spaces, sep, c07QuoteNames[quote])
+							r.Begin(func() string { return desc })
+							res := vLint(src, nil)
+							r.Evaluations++
+							r.Transitions++
+							r.Validated++
+							if res.Panic != "" || res.Err != nil {
+								r.Violation("failure", fmt.Sprintf("%s: panic=%q err=%v", desc, vTrunc(res.Panic, 200), res.Err), map[string]any{"desc": desc, "src": src, "line": 0, "col": 0, "msg": "$^", "class": "multi"})
+								continue
+							}
+							hitsTotal := 0
+							for _, e := range exps {
+								for _, d := range vDiags(res.Errs) {
+									if !e.re.MatchString(d.Msg) {
+										continue
+									}
+									hitsTotal++
+									want := col + qoff + e.off
+									if d.Line != line || d.Col != want {
+										r.Violation(fmt.Sprintf("position:multi:%s:slot-after-%s", k.name, e.prev), fmt.Sprintf("%s: token of %s is at %d:%d, diagnostic reported at %d:%d (%s)\n%s", desc, e.re, line, want, d.Line, d.Col, vTrunc(d.Msg, 80), src),
+											map[string]any{"desc": desc, "src": src, "line": line, "col": want, "msg": e.re.String(), "class": "multi"})
+									}
+								}
+							}
+							r.Class(fmt.Sprintf("multi/%s/%s/diagnosed-slots=%d", keys[ki].name, c07QuoteNames[quote], hitsTotal), hitsTotal > 0)
+						}
+					}
+				}
+			}
+		}
+	}
+}
+
+// c07RawMatrixValue reports whether the schema path is a literal value below a matrix row or an
+// include / exclude entry (kept by the parser as RawYAMLValue).
+func c07RawMatrixValue(np string) bool {
+	const m = "jobs.*.strategy.matrix."
+	if !strings.HasPrefix(np, m) {
+		return false
+	}
+	rest := strings.TrimPrefix(np, m)
+	return strings.HasPrefix(rest, "*[]") || strings.HasPrefix(rest, "include[].") || strings.HasPrefix(rest, "exclude[].")
 }
